@@ -1759,7 +1759,8 @@ impl TypeLayout {
     }
 
     pub fn supports_negate(&self) -> bool {
-        let me = self.get_type_recursively();
+        // an alias of a number, or a captured number, is negated like the number
+        let me = self.disregard_distractors(false);
         match me {
             Self::Native(NativeType::Str(_) | NativeType::Byte | NativeType::Bool) => false,
             Self::Native(_) => true,
